@@ -60,6 +60,7 @@ type RawSrvParams struct {
 	Hostile bool        `json:"hostile"` // sequences are arbitrary (C13); otherwise valid foreign conversations (C03, C05)
 	Close   bool        `json:"close"`   // fail the client's reads at the end
 	CloseErr int        `json:"close_err,omitempty"` // which error the client's Read reports when the connection ends
+	ResetOK bool        `json:"reset_ok,omitempty"` // a peer that fills an explicit OK status into every envelope, resets included: a reset still is a failure
 	NilKV   bool        `json:"nil_kv,omitempty"` // every metadata list the peer sends has a nil entry appended (by-reference links only)
 	Enum    int         `json:"enum,omitempty"` // >0: Seq is the idx-th sequence of that length in the bounded enumeration
 }
@@ -142,6 +143,7 @@ func rawClientProg(kind int) []Op {
 func genRawValid(g *rand.Rand, tier string) any {
 	p := &RawSrvParams{Links: drawLinks(g, 2)}
 	p.Links[0].Cap, p.Links[1].Cap = -1, -1
+	p.ResetOK = g.IntN(3) == 0
 	k := 2 + g.IntN(5)
 	if g.IntN(4) == 0 {
 		k = 1
@@ -202,6 +204,7 @@ func genRawHostile(g *rand.Rand, tier string) any {
 	p := &RawSrvParams{Links: drawLinks(g, 2), Hostile: true, Close: true}
 	p.Links[0].Cap, p.Links[1].Cap = -1, -1
 	p.NilKV = g.IntN(8) == 0
+	p.ResetOK = g.IntN(4) == 0
 	for i := 0; i < 2; i++ {
 		c := &CallSpec{ID: i + 1, MsgLen: 12}
 		if g.IntN(2) == 0 {
@@ -312,6 +315,13 @@ func execRawSrv(e *Env, pp any) {
 			}
 			k := seqOf[callID]
 			env := buildResp(rr.Shape, id, m, callID, k)
+			if p.ResetOK && env.Reset_ != nil {
+				env.Status = &goatorepo.ResponseStatus{Code: 0, Message: "OK"}
+				if env.Trailer == nil {
+					env.Trailer = &goatorepo.Trailer{}
+				}
+				e.Note("shape.reset+ok-status")
+			}
 			if p.NilKV {
 				if env.Header != nil {
 					env.Header.Headers = append(env.Header.Headers, nil)
@@ -351,6 +361,52 @@ func execRawSrv(e *Env, pp any) {
 	e.Note("nontrivial")
 	if p.Enum > 0 {
 		e.Note(fmt.Sprintf("enum.len%d", p.Enum))
+	}
+	// a later, ordinary unary call on the same connection, answered properly by
+	// the peer: whatever the hostile envelopes were (several replies to one call,
+	// replies to finished or unknown calls), it reports exactly what was addressed to it
+	if p.Hostile {
+		pc := &CallSpec{ID: 90, Kind: KUnary, ReqLen: 12}
+		pr := sim.Add(pc)
+		e.Go("caller.probe", func() { sim.RunCall(cc, pr) })
+		got := func() bool { histMu.Lock(); defer histMu.Unlock(); _, ok := wire[90]; return ok }
+		if r := e.Drive(got); r == Crashed || r == StepLimit {
+			return
+		}
+		if got() {
+			histMu.Lock()
+			pid, pm := wire[90], method[90]
+			histMu.Unlock()
+			e.Go("raw.probe-answer", func() {
+				e.Pt("raw.send")
+				b.Write(rctx, buildResp(RUnaryOK, pid, pm, 90, 0))
+			})
+		}
+		if r := e.Settle(); r == Crashed || r == StepLimit {
+			return
+		}
+		switch {
+		case !got():
+			e.Violate("C13", "probe-not-sent", "unary.later-call", "a unary call made after the hostile sequence never put its request on the transport\n%s", e.WaitGraph())
+		case !pr.Returned:
+			e.Violate("C13", "hang", "unary.later-call", "a unary call made after the hostile sequence and answered properly by the peer has not returned\n%s", e.WaitGraph())
+		case pr.InvokeErr != nil:
+			e.Violate("C13", "later-call-failed", "unary.later-call", "a unary call made after the hostile sequence and answered properly by the peer failed: %v", pr.InvokeErr)
+		case !bytes.Equal(pr.InvokeResp, MakePayload(90, 'h', 0, 12)):
+			cc2, d, sq, ok := payloadTag(pr.InvokeResp)
+			e.Violate("C13", "foreign-reply", "unary.later-call", "a unary call made after the hostile sequence returned data that was not addressed to it (tag call=%d dir=%c seq=%d ok=%v, %d bytes)", cc2, d, sq, ok, len(pr.InvokeResp))
+		default:
+			e.Note("later-call.ok")
+		}
+		histMu.Lock()
+		delete(sim.Calls, 90)
+		for i, id := range sim.Order {
+			if id == 90 {
+				sim.Order = append(sim.Order[:i], sim.Order[i+1:]...)
+				break
+			}
+		}
+		histMu.Unlock()
 	}
 	closed := false
 	if p.Close || p.Hostile {
